@@ -79,10 +79,14 @@ def _scratch_copy(repo):
 
 def _run_unit(unit_name, repo, outdir):
     mod = importlib.import_module(props.VERUS_UNITS[unit_name])
+    old_repo = extract.REPO
+    extract.REPO = repo   # a unit may look at the source when it is built (e.g. which spelling of a loop is present)
     try:
         prov = extract.build_unit(mod.unit(), outdir, repo)
     except extract.ExtractError as e:
         return dict(undecided='extraction: %s' % e, failures=[])
+    finally:
+        extract.REPO = old_repo
     res = verus_run.run_verus(prov['generated'], timeout=900)
     cl = verus_run.classify(res, prov)
     if cl['fatal']:
